@@ -93,7 +93,7 @@ func (s *SourceSplitter) Start(ckpt *snapshotpb.SourceCheckpoint) error {
 	}
 
 	// Include newly discovered shards for assignment
-	err := s.discoverShards(ctx, s.splitTracker.LastAssignedSplitID)
+	err := s.discoverShards(ctx, s.splitTracker.LastAssigned())
 	if err != nil {
 		return fmt.Errorf("kinesis.SourceSplitter failed to discover shards: %w", err)
 	}
@@ -120,7 +120,7 @@ func (s *SourceSplitter) processShardAssignment(ctx context.Context) {
 			return
 		case <-s.shardDiscoveryTicker.C:
 			// periodically discover shards and assign them to source runners
-			err := s.discoverShards(s.ctx, s.splitTracker.LastAssignedSplitID)
+			err := s.discoverShards(s.ctx, s.splitTracker.LastAssigned())
 			if err != nil {
 				s.errChan <- fmt.Errorf("kinesis.SourceSplitter failed to discover shards: %w", err)
 				return
@@ -162,7 +162,7 @@ func (s *SourceSplitter) Checkpoint() []byte {
 
 	bs, err := proto.Marshal(&kinesispb.SplitterState{
 		AssignedShards:      pbShards,
-		LastAssignedShardId: s.splitTracker.LastAssignedSplitID,
+		LastAssignedShardId: s.splitTracker.LastAssigned(),
 	})
 	if err != nil {
 		panic(err)
